@@ -12,6 +12,7 @@ import (
 	"testing/synctest"
 	"time"
 
+	dtlsstate "github.com/pion/dtls/v3/internal/state"
 	"github.com/pion/dtls/v3/pkg/protocol"
 	"github.com/pion/dtls/v3/pkg/protocol/extension"
 	"github.com/pion/dtls/v3/pkg/protocol/handshake"
@@ -21,15 +22,16 @@ import (
 // ---- C13: an attacker-driven server: every datagram it receives is crafted by the harness.
 
 type c13Step struct {
-	In      string `json:"in"`      // ch | other | timer
-	MSeq    int    `json:"mseq"`    // ClientHello message sequence
-	Cookie  string `json:"cookie"`  // none | right | wrong | stale | trunc | extra
-	Body    string `json:"body"`    // same | version | random | session | suites | suiteorder | compression | ext
-	Out     string `json:"out"`     // "" | hvr | flight4 | alert | mixed:<kinds>
-	HVRCookieOK bool `json:"hvr_cookie_ok"` // emitted HVR carries the connection's cookie
-	InBytes  int   `json:"in_bytes"`
-	OutBytes int   `json:"out_bytes"`
-	OutKinds []int `json:"out_kinds"` // handshake types / content types seen in the emitted datagrams
+	In          string `json:"in"`            // ch | other | timer
+	MSeq        int    `json:"mseq"`          // ClientHello message sequence
+	Cookie      string `json:"cookie"`        // none | right | wrong | stale | trunc | extra
+	Body        string `json:"body"`          // same | version | random | session | suites | suiteorder | compression | ext
+	Out         string `json:"out"`           // "" | hvr | flight4 | alert | mixed:<kinds>
+	HVRCookieOK bool   `json:"hvr_cookie_ok"` // emitted HVR carries the connection's cookie
+	InBytes     int    `json:"in_bytes"`
+	OutBytes    int    `json:"out_bytes"`
+	OutKinds    []int  `json:"out_kinds"` // handshake types / content types seen in the emitted datagrams
+	KeyGen      bool   `json:"keygen"`    // after this step the server holds an ephemeral key-exchange key pair
 }
 
 type c13Case struct {
@@ -239,6 +241,10 @@ func (s *c13Server) observe(st *c13Step, data []byte, wait time.Duration) {
 				st.OutKinds = append(st.OutKinds, r.CT)
 			}
 		}
+	}
+	// key-exchange work committed so far (the handshake goroutine is parked: synctest.Wait above)
+	if s12, ok := s.conn.state.(*dtlsstate.State12); ok {
+		st.KeyGen = s12.LocalKeypair != nil
 	}
 	switch {
 	case len(kinds) == 0:
